@@ -455,3 +455,26 @@ def run(ctx):
             ok = bool(m_) and int(m_.group(1)) >= 4
             ctx.ob('ID-WIDTH', fn_, ok, g.loc(c), 'marker built with "%s"%s' % (fm, '' if ok else ': ids shorter than 4 characters leave NUL bytes in the marker'), None)
     ctx.require(n_iw >= 2, 'only %d marker constructions found' % n_iw)
+
+    ctx.rule('CACHE-RECLAIM', 'the read side of the header cache (header_read, header_gets, psf_binheader_readf in common.c) never gives up on a refused psf_bump_header_allocation directly: it asks for room '
+             'through a helper that, when the buffer may not grow (the read-mode cap), drops what the parser has already consumed from the front of the cache (a memmove onto psf->header.ptr and '
+             'psf->header.indx = 0) before it reports failure. Without that a file whose chunks in front of the audio data add up to more than the cap - 190 custom chunks of 500 bytes - cannot '
+             'be opened again although every single request is small', floor=3)
+    from engine.util import assigned_lvalues as _al13
+    cfile = prog.fn('header_read', 'common.c').file
+    room = []
+    for h_ in prog.lib_fns():
+        if h_.file != cfile or not h_.static or not list(h_.calls('psf_bump_header_allocation')):
+            continue
+        slides = [c_ for c_ in h_.calls('memmove') if h_.s(h_.unwrap(h_.args(c_)[0])) == 'psf->header.ptr']
+        resets = [a_ for lv_, a_, r_ in _al13(h_) if lv_ == 'psf->header.indx' and r_ is not None and h_.unwrap(r_).get('v') == 0]
+        if slides and resets:
+            room.append(h_.name)
+    for name in ('header_read', 'header_gets', 'psf_binheader_readf'):
+        g = prog.fn(name, 'common.c')
+        direct = list(g.calls('psf_bump_header_allocation'))
+        via = [c_ for c_ in g.calls() if c_.get('callee') in room]
+        ok = not direct and bool(via)
+        ctx.ob('CACHE-RECLAIM', name, ok, g.loc(direct[0]) if direct else g.loc(g.body), 'asks for room through %s (reclaims the consumed part of the cache when the buffer may not grow)' % sorted({c_['callee'] for c_ in via}) if ok else
+               ('gives up when psf_bump_header_allocation refuses, without reclaiming the part of the cache the parser has consumed: headers whose chunks add up to more than the read-mode cap end the parse'
+                if direct else 'does not ask for room in the cache at all'), None)
